@@ -78,6 +78,32 @@ def strat(tier, opts):
     return cases(tier)
 
 
+def tar_strat(tier, opts):
+    import c04
+    return c04.cases(tier)
+
+
+def check_tar_case(case, opts):
+    """images written by tar2sqfs for C04-style archives"""
+    import c04, tarimg
+    ar, o = case["archive"], case["opts"]
+    try:
+        data = tarimg.encode_archive(ar["entries"], ar["end_marker"], ar["global_pax"], ar["trailing_pad"])
+        tarimg.expected_from_archive(ar["entries"], o)
+    except (OverflowError, treemodel.Unrepresentable):
+        raise Inconclusive("archive")
+    with Scratch("c03t") as sc:
+        out = os.path.join(sc, "t.sqfs")
+        r = c04.run_t2s(data, o, out)
+        if r.sanitizer():
+            raise Violation("tar2sqfs: " + r.sanitizer(), r.err.decode(errors="replace")[-2000:], sig="sanitizer")
+        if r.rc != 0 or r.timeout:
+            raise Inconclusive("tar2sqfs refused (C04's business)")
+        img = validate_image(open(out, "rb").read(), 4096, "tar2sqfs image")
+        cl = packlib.image_classes(img, dict(mode="tar"))
+        return CaseInfo("has_fragment" in cl or "ext_dir" in cl or "inode_table_multi_block" in cl, ["tar2sqfs"] + cl)
+
+
 def main(tier, seed, scale=1.0):
     vbuild.build("asan")
     n = int((2000 if tier == "quick" else 20000) * scale)
@@ -85,11 +111,9 @@ def main(tier, seed, scale=1.0):
     vcommon.run_corpus(PROP, check_case, {"prop": PROP}, res)
     for d in vcommon.run_shards("c03", "check_case", "strat", n, seed, tier, {"prop": PROP}):
         res.merge_shard(d)
-    try:
-        import c04
-        c04.images_for_c03(res, tier, seed, scale)
-    except ImportError:
-        pass
+    nt = int((1500 if tier == "quick" else 20000) * scale)
+    for d in vcommon.run_shards("c03", "check_tar_case", "tar_strat", nt, seed + 1, tier, {"prop": PROP}):
+        res.merge_shard(d)
     res.rule = ("images written by gensquashfs for C01-style cases (incl. 256/512-entry directories, metadata block crossings, k*512 xattr "
                 "sets) and for short/incompressible inputs with every compressor, and by tar2sqfs for C04 archives; non-trivial = image "
                 "has an extended directory, a multi-block inode/dir table or a fragment block; distinct by case hash; oracle = named "
